@@ -295,6 +295,9 @@ func (s *Solver) Check(pc []*Term, extra *Term, wantModel bool) (Result, Model) 
 		}
 		// ignore other chatter (e.g. "success")
 	}
+	if s.Log != nil {
+		fmt.Fprintf(s.Log, "; time %.0f ms pc=%d\n", time.Since(start).Seconds()*1000, len(pc))
+	}
 	var model Model
 	if res == Sat && wantModel {
 		model = s.getModel()
